@@ -236,42 +236,49 @@ inductive Adv where
 
 def kindOfByte (b : UInt8) : Kind := if b.toNat / 128 % 2 = 1 then .binary else .text
 
+/-- `advanceFrame` step 1: skip the remainder of the previous frame (`io.CopyN`) -/
+def RConn.skip (c : RConn) : Except (RErr × RConn) RConn :=
+  if c.rem > 0 then
+    if c.input.length < c.rem then .error (c.tail.rawErr, { c with input := [] })
+    else .ok { c with input := c.input.drop c.rem }
+  else .ok c
+
+/-- `advanceFrame` steps 2 and 3: header byte and extended length -/
+def RConn.header (c : RConn) : Except (RErr × RConn) (Kind × RConn) :=
+  match c.read 1 with
+  | .error e => .error (e, c.readFailState)
+  | .ok (p, c) =>
+    let b := p.headD 0
+    let k := kindOfByte b
+    let c := { c with rem := b.toNat % 128 }
+    if c.rem = 126 then
+      match c.read 2 with
+      | .error e => .error (e, c.readFailState)
+      | .ok (p, c) => .ok (k, { c with rem := unbe p })
+    else if c.rem = 127 then
+      match c.read 8 with
+      | .error e => .error (e, c.readFailState)
+      | .ok (p, c) =>
+        if unbe p ≥ 2 ^ 63 then .error (.readLimit, c)   -- int64 cast negative
+        else .ok (k, { c with rem := unbe p })
+    else .ok (k, c)
+
+/-- `advanceFrame` step 4: enforce the read limit -/
+def RConn.checkLimit (k : Kind) (c : RConn) : Adv :=
+  let c := { c with rlen := c.rlen + c.rem }
+  if c.limit > 0 ∧ c.rlen > c.limit then
+    let c := { c with closes := c.closes ++ [1009] }
+    if c.closeFails then .fail .closeFailed c else .fail .readLimit c
+  else .frame k c
+
 /-- `advanceFrame` -/
-def RConn.advanceFrame (c0 : RConn) : Adv :=
-  -- 1. skip remainder of previous frame
-  if c0.rem > 0 ∧ c0.input.length < c0.rem then
-    .fail c0.tail.rawErr { c0 with input := [] }
-  else
-    let c := if c0.rem > 0 then { c0 with input := c0.input.drop c0.rem } else c0
-    -- 2. first header byte
-    match c.read 1 with
-    | .error e => .fail e c.readFailState
-    | .ok (p, c) =>
-      let b := p.headD 0
-      let k := kindOfByte b
-      let c := { c with rem := b.toNat % 128 }
-      -- 3. extended length
-      let r : Except (RErr × RConn) RConn :=
-        if c.rem = 126 then
-          match c.read 2 with
-          | .error e => .error (e, c.readFailState)
-          | .ok (p, c) => .ok { c with rem := unbe p }
-        else if c.rem = 127 then
-          match c.read 8 with
-          | .error e => .error (e, c.readFailState)
-          | .ok (p, c) =>
-            if unbe p ≥ 2 ^ 63 then .error (.readLimit, c)   -- int64 cast negative
-            else .ok { c with rem := unbe p }
-        else .ok c
-      match r with
-      | .error (e, c) => .fail e c
-      | .ok c =>
-        -- 4. read limit
-        let c := { c with rlen := c.rlen + c.rem }
-        if c.limit > 0 ∧ c.rlen > c.limit then
-          let c := { c with closes := c.closes ++ [1009] }
-          if c.closeFails then .fail .closeFailed c else .fail .readLimit c
-        else .frame k c
+def RConn.advanceFrame (c : RConn) : Adv :=
+  match c.skip with
+  | .error (e, c) => .fail e c
+  | .ok c =>
+    match c.header with
+    | .error (e, c) => .fail e c
+    | .ok (k, c) => c.checkLimit k
 
 inductive Next where
   | reader (k : Kind) (c : RConn)
